@@ -13,16 +13,18 @@ SFver1gen0  == File(TRUE, 72, TRUE, 72, 1, 0, Z, 0, 0)
 SFfirstpub  == File(TRUE, 72, TRUE, 72, 1, 1, Z, 0, 0)
 SFbadmagic  == File(TRUE, 72, FALSE, 72, 1, 4, Full(1), 1, 1)
 SFvalid     == File(TRUE, 72, TRUE, 72, 1, 4, Full(1), 1, 1)
+SFgen2      == File(TRUE, 72, TRUE, 72, 1, 2, Full(1), 1, 1)      \* right after a daemon's very first publication
 SFprewrap   == File(TRUE, 72, TRUE, 72, 1, GenMod - 2, Full(1), 1, 1)
 SFmidwrap   == File(TRUE, 72, TRUE, 72, 1, GenMod - 1, Mixed(2, 1), 1, 2)
 SFotherver  == File(TRUE, 72, TRUE, 72, 2, 8, Full(1), 1, 1)
 SFsmallsize == File(TRUE, 72, TRUE, 40, 1, 4, Full(1), 1, 1)
 
 SFall == { SFmissing, SFempty, SFgarbage, SFhdronly, SFwiped, SFver1gen0, SFfirstpub,
-            SFbadmagic, SFvalid, SFprewrap, SFmidwrap, SFotherver, SFsmallsize }
+            SFbadmagic, SFvalid, SFgen2, SFprewrap, SFmidwrap, SFotherver, SFsmallsize }
 SFcold == { SFmissing, SFempty, SFgarbage, SFhdronly, SFwiped, SFver1gen0, SFbadmagic, SFsmallsize }
-SFwarm == { SFfirstpub, SFvalid, SFprewrap, SFmidwrap, SFotherver }
+SFwarm == { SFfirstpub, SFvalid, SFgen2, SFprewrap, SFmidwrap, SFotherver }
 SFra == { SFvalid, SFmidwrap }
+SFrp == { SFvalid, SFgen2, SFmidwrap }
 SFone == { SFvalid }
 
 \* state constraint of the wrap configuration: no publication while a snapshot() call is in progress
